@@ -117,7 +117,7 @@ func genC10(g *Gen) {
 	g.gridRun(4*2*4, 0.12, func(i int) {
 		gd := []int{0, 4, 5, 9}[i%4]
 		for try := 0; try < 20; try++ {
-			a, b, ok := g.ratFarSticky(gd)
+			a, b, ok := g.ratFarStickySigned(gd, (i/8)%2 == 1)
 			if !ok {
 				continue
 			}
